@@ -156,6 +156,23 @@ fn arm(send: &UnixStream, drain: &UnixStream, script: &[u64], eintr: bool) {
     });
 }
 
+/// Script the next send attempts on `send` only (no peer reads with matching granularity): used by the session engine
+/// to put transient refusals and partial writes under ordinary calls.
+pub fn arm_send_only(send: &UnixStream, script: &[u64], eintr: bool) {
+    *SCRIPT.lock().unwrap() = Some(Script {
+        send_ino: ino_of(send.as_raw_fd()),
+        drain_ino: 0,
+        chunks: script.iter().cloned().collect(),
+        errno: if eintr { libc::EINTR } else { libc::EAGAIN },
+        attempts: Vec::new(),
+        iovs: Vec::new(),
+        drained: false,
+    });
+}
+pub fn disarm_quiet() {
+    let _ = SCRIPT.lock().unwrap().take();
+}
+
 fn disarm() -> (Vec<(usize, usize, i64)>, Vec<usize>) {
     match SCRIPT.lock().unwrap().take() {
         Some(s) => (s.attempts, s.iovs),
@@ -313,7 +330,17 @@ pub fn run(cases: &[Value], trace: &mut Trace, seed: u64) {
         // the arguments depend on the operation only, so that the reference run produces the same message
         let s = seed ^ (op.len() as u64 * 0x9e37 + dlen as u64 + cls.len() as u64 * 131);
         let reference = run_one(ep, op, cls, dlen, None, s);
-        let got = run_one(ep, op, cls, dlen, Some((&script, eintr)), s);
+        // a panic inside the send path (e.g. a slice index derived from a wrong resume position) is data
+        let mut panicked = false;
+        let got = match std::panic::catch_unwind(std::panic::AssertUnwindSafe(|| run_one(ep, op, cls, dlen, Some((&script, eintr)), s))) {
+            Ok(g) => g,
+            Err(_) => {
+                panicked = true;
+                let (attempts, iovs) = disarm();
+                let _ = take_panics();
+                Sent { res_ok: false, wire: Vec::new(), fdoffs: Vec::new(), attempts, iovs }
+            }
+        };
         let ref_nfds: usize = reference.fdoffs.iter().map(|x| x.1).sum();
         trace.emit(json!({
             "ev": "send", "id": case["id"], "ep": ep, "op": op, "cls": cls, "dlen": dlen, "script": script, "eintr": eintr,
@@ -324,7 +351,7 @@ pub fn run(cases: &[Value], trace: &mut Trace, seed: u64) {
             "got_len": got.wire.len(), "same_bytes": got.wire == reference.wire,
             "is_prefix": reference.wire.starts_with(&got.wire),
             "fdoffs": got.fdoffs.iter().map(|x| json!([x.0, x.1])).collect::<Vec<_>>(),
-            "res": if got.res_ok { "ok" } else { "err" },
+            "res": if panicked { "panic" } else if got.res_ok { "ok" } else { "err" },
         }));
     }
 }
